@@ -36,7 +36,7 @@ type Oracle struct {
 // Stats reports what a run did.
 type Stats struct {
 	Adds, Events, Restarts, Crashes, Snapshots, Queries int
-	CrashPoints                                        []string
+	CrashPoints                                         []string
 }
 
 func evs(ss []string) [][]byte {
